@@ -56,8 +56,34 @@ partial def run (keys : List (Tok × Nat)) : CDD → List Op → CDD × List Ent
     let (d2, h2) := run keys d1 rest
     (d2, h1 ++ h2)
 
+/-- `_valid_use_flag = ^[A-Za-z0-9][A-Za-z0-9+_@-]*\Z` (eapi.py); the harness compares it with the real
+`is_valid_use_flag` on every token the splitter checks -/
+def validUse (t : Tok) : Bool :=
+  match t with
+  | [] => false
+  | c :: cs => c.isAlphanum && cs.all fun d => d.isAlphanum || d == '+' || d == '_' || d == '@' || d == '-'
+
 def handle : Handler := fun cmd j =>
   match cmd with
+  | "c11.split" => do
+    -- the tokens of one package.use line (behind the query) -> splitter output, specification, classification
+    let ts ← toks j "toks"
+    let out := splitUse validUse ts
+    let checked := Spec.checkedFrom none ts
+    let outJ : Json := match out with | some o => ofStrs o | none => Json.null
+    let chunk := lineChunk 0 true (out.getD [])
+    pure (Json.mkObj [("out", outJ), ("spec", ofStrs (Spec.splitSpec ts)), ("rewrite", ofStrs (Spec.rewrite ts)),
+      ("checked", .arr (checked.map fun t => Json.arr #[Json.str (String.ofList (lstripDash t)), Json.bool (validUse (lstripDash t))]).toArray),
+      ("order_free", .bool (Spec.orderFree (Spec.splitSpec ts))), ("plain_names", .bool (Spec.plainNames ts)),
+      ("neg", ofStrs chunk.neg), ("pos", ofStrs chunk.pos)])
+  | "c11.ltr" => do
+    -- long form tokens applied left to right to `pre`: the set, and per probe the last-writer specification
+    let ts ← toks j "toks"
+    let pre ← toks j "pre"
+    let probes ← toks j "probes"
+    let s0 := pre.foldl sAdd []
+    pure (Json.mkObj [("set", ofStrs (Spec.ltr ts s0)),
+      ("holds", .arr (probes.map fun x => Json.bool (Spec.holds (fun _ => true) (ts.map Spec.tokChunk) s0 x)).toArray)])
   | "c11.build" => do
     let seq ← getArr j "seq" >>= fun a => a.mapM chunkOfJson
     let rk ← getNat j "rk"
